@@ -3,13 +3,17 @@
 Model: lean/StraxModel/Model/Contract.lean (T11); theorems: Props/C12.lean; lemmas: Lemmas/Contract.lean.
 Tie (unit level): Chunk construction, Plugin.chunk, _check_dtype, _fix_output (base and DownChunkingPlugin),
 continuity_check, fix_dtype on generated inputs against the compiled driver (ops `c12.*`); range checks
-exhaustively over small row lists on a grid.
+exhaustively over small row lists on a grid; the same again with every time shifted to epoch scale (`epoch/*`).
+Tie (saver protocol): `saver_protocol` runs scripted output streams through the real get_iter + SingleThreadProcessor
+with a recording strax.Saver and compares with `Contract.process`; `pipeline/eager-slow-consumer` compares the eager
+threaded pipeline with a consumer that lets the pipeline drain with `Contract.processEager` (open finding F3 / D21).
 Tie (pipeline level): tiny REAL plugin classes of every kind (source, ordinary, multi-output, down-chunking,
 loop, cut, overlap-window) whose compute misbehaves at a chosen chunk index, run through a real Context with a
-temporary DataDirectory by both processors.  Oracle = the property's wording: an exception reaches the caller,
-nothing of the offending data type (or derived from it) is stored afterwards, a later correct run works; if no
-exception is raised everything delivered and stored conforms to the declaration.  The verdict (error kind) is
-additionally compared with the model's verdict for the very object the plugin handed back.
+temporary DataDirectory by single_thread and threaded_mailbox (lazy; eager with allow_lazy=False and with
+max_workers=2).  Oracle = the property's wording: an exception reaches the caller, nothing of the offending data
+type (or derived from it) is stored afterwards, a later correct run works; if no exception is raised everything
+delivered and stored conforms to the declaration.  The verdict (error kind) is additionally compared with the
+model's verdict for the very object the plugin handed back.
 """
 from __future__ import annotations
 
@@ -33,8 +37,9 @@ LEAN_MODULES = ["StraxModel.Props.C12"]
 TRUSTED = [
     "numpy structured-dtype equality is modelled as equality of (field name, type code) lists after title stripping "
     "(type code = dtype.str, plus the shape for sub-array fields); byte-order aliases and nested structs are outside the model",
-    "pipeline scenarios are executed on the real Context/processors; the saver protocol itself is abstracted in the model "
-    "(Saver.visible) — the crash-level statement is C04's",
+    "pipeline scenarios are executed on the real Context/processors; the saver protocol is modelled as Contract.process "
+    "(single-thread, tied by saver_protocol) and Contract.processEager (saver ahead of the consumer, tied by the F3/D21 probe); "
+    "that a saver closed with an exception stays invisible across crashes is C04's statement",
 ]
 ASSUMPTIONS = [
     "chunks of at most 500 time-sorted rows for the row-range theorem (the constructor inspects only the last 500 rows; "
@@ -1199,9 +1204,17 @@ def scenario(case):
                 for c in st.get_iter("r0", target, processor=proc, progress_bar=False, max_workers=mw):
                     res["delivered"].append(dict(label=c.data_type, start=int(c.start), end=int(c.end), dtype=enc_stripped(c.data.dtype),
                                                  rows=rows_any(c.data)))
-                    if mode == "eager_slow":
+                    if mode == "eager_slow" and len(res["delivered"]) == 1:
+                        # the consumer is slower than the pipeline, by construction: it waits until the pipeline has drained
+                        # (the saver of the target has renamed its directory, i.e. closed) before it asks for the next chunk
+                        import glob
                         import time
-                        time.sleep(0.15)
+                        t_wait = time.time()
+                        while time.time() - t_wait < 20:
+                            if any(not d.endswith("_temp") for d in glob.glob(f"{tmp}/r0-{target}-*")):
+                                break
+                            time.sleep(0.01)
+                        res["drained"] = any(not d.endswith("_temp") for d in glob.glob(f"{tmp}/r0-{target}-*"))
                 res["out"] = "ok"
             except Exception as e:  # noqa: BLE001
                 res["out"] = "err " + sl.err_name(e)
@@ -1405,6 +1418,18 @@ def eager_cases():
     out += [dict(kind=k, viol=v, bad_i=2, processor="threaded_mailbox", target="pp", n=4, mode="eager_slow", max_workers=2)
             for k, v in (("ordinary", "gap:overlap_before"), ("down", "gap:after"))]
     return out
+
+
+def impl_eager_probe(case):
+    """observable outcome of the F3 / D21 probe, in the form of the model op `c12.processeager`"""
+    out = impl_scenario(case)
+    r = SCEN_CACHE[case_key(case)]
+    head = "ok" if out == "ok" else out
+    return f"{head} {'stored' if r['stored'].get('pp') else 'not-stored'}"
+
+
+def op_eager_probe(case):
+    return "c12.processeager " + ",".join(f"{a}:{b}" for a, b in plugin_stream(case))
 
 
 def branch_scenario(c, o):
@@ -1625,9 +1650,10 @@ def run(ctx):
                         "strax.Saver: compared = chunks delivered, error kind, number of save calls, saver closed (once) and whether an exception was recorded; "
                         "all scripts of <= 3 outputs, a sample of those with 4, and longer mostly contiguous streams with at most one defect",
                    branch=lambda c, o: " ".join(o.split(" ")[:2]) + ":" + o.split(" ")[-3])
-    ctx.correspond("pipeline/eager-slow-consumer", eager_cases(), impl_scenario, None, oracle_scenario, nontrivial=lambda c, o: True,
-                   rule="F3 / D21 reproducer: gap or overlap in the target, threaded_mailbox with allow_lazy=False or max_workers=2, consumer sleeping "
-                        "150 ms per chunk", branch=branch_scenario)
+    ctx.correspond("pipeline/eager-slow-consumer", eager_cases(), impl_eager_probe, op_eager_probe, oracle_scenario, nontrivial=lambda c, o: True,
+                   rule="F3 / D21 probe and tie of Contract.processEager: gap or overlap in the target, threaded_mailbox with allow_lazy=False "
+                        "or max_workers=2, the consumer takes its second chunk only after the pipeline has drained (target directory renamed); "
+                        "compared with the model: error kind and whether the target is visible in storage", branch=branch_scenario)
     run_epoch(ctx)
 
 
